@@ -3,6 +3,7 @@ package arkx
 import (
 	"fmt"
 	"sync"
+	"sync/atomic"
 
 	"github.com/mlange-42/ark/ecs"
 )
@@ -13,7 +14,14 @@ import (
 // (queries are created from several goroutines in the concurrency runs)
 var covMu sync.Mutex
 
+// covOff > 0: calls are not counted - misuse calls and structural attempts on a locked world are rejected by the
+// library's checks and do not exercise the variant (C14's coverage requirement counts calls that can take effect)
+var covOff int32
+
 func covHit(c map[string]int, k string) {
+	if atomic.LoadInt32(&covOff) > 0 {
+		return
+	}
 	covMu.Lock()
 	c[k]++
 	covMu.Unlock()
